@@ -2,6 +2,9 @@
 
 spec/Publisher.tla                the subscriber list with Go slice semantics (backing arrays, snapshot sharing the array, in-place vs fresh removal)
 spec/trace/Trace_PublisherAbs.tla TLC judges recorded runs with the statement's four delivery rules over the subscription set
+spec/gen/Gen_PublisherSched.tla   TLC writes EVERY complete behaviour of Publisher.tla (2 / 3 / 4 subscriptions) as a schedule; drv c10 direct forces each on the real
+                                  publisher (publishing goroutine parked at the hook points p.publish.snap / p.publish.deliver; changes by another goroutine or in the callback)
+spec/trace/Trace_PublisherDirect.tla  replays what really happened through Publisher.tla's own actions (Deliver must name arrays[snap.arr][idx]; final list = Current)
 """
 import json
 import os
@@ -14,6 +17,68 @@ RULE = ("model: 3 and 4 subscriptions, any 2 list changes (Unsubscribe of anyone
         "subscribe new / nested Publish) to 3 subscriptions, samples for 4 subscriptions, Map-derived publishers and SubscribeOn(handler); the publishing goroutine "
         "parked inside each callback while another goroutine performs 1-2 list changes (30 placements); seeded stress with 1-4 publishers and 1-4 churners. "
         "non-trivial = run with at least one list change during a Publish; distinct = distinct recorded runs")
+
+
+def directed(ctx, tla, quick):
+    """Direction A at hook grain: every behaviour of Publisher.tla forced on the real publisher, the recorded steps replayed through the model's actions."""
+    total = runs = 0
+    for n in ((2, 3) if quick else (2, 3, 4)):
+        sf = os.path.join(ctx.scratch, "c10.sched.s%d.ndjson" % n)
+        r = ctx.tlc("Gen_PublisherSched", "Gen_PublisherSched_s%d.cfg" % n, workers=1, timeout=600, cwd=tla, env_extra={"VERIF_EMIT": sf})
+        if not r.completed or not os.path.exists(sf):
+            core.log(r.text[-2000:])
+            raise core.Inconclusive("Gen_PublisherSched s%d did not finish" % n)
+        ctx.add_states(r)
+        of = os.path.join(ctx.scratch, "c10.direct.s%d.ndjson" % n)
+        p, crash = ctx.drv_crashable(["c10", "direct", "--in", sf, "--out", of, "--nsubs", n], timeout=1500)
+        if crash:
+            ctx.report("directed behaviour: process crash: %s" % crash["panic"], "the driver died while replaying the behaviours of %d subscriptions: %s" % (n, crash["stderr"][-1500:]),
+                       {"component": "c10-direct", "nsubs": n, "crash": crash})
+            continue
+        info = json.loads(p.stdout.strip().splitlines()[-1])
+        rows = core.read_ndjson(of)
+        if not rows or info["schedules"] == 0:
+            raise core.Inconclusive("no directed run recorded for %d subscriptions" % n)
+        j = ctx.tlc("Trace_PublisherDirect", "Trace_PublisherDirect_s%d.cfg" % n, workers=1, timeout=900, cwd=tla, env_extra={"VERIF_TRACE": of}, heap="4g")
+        cons = j.printed("CONSUMED")
+        if not cons:
+            core.log(j.text[-2000:])
+            raise core.Inconclusive("Trace_PublisherDirect did not finish")
+        a, b = [int(x) for x in cons[-1].split(",")]
+        if a != b:
+            raise core.Inconclusive("Trace_PublisherDirect consumed %d of %d lines" % (a, b))
+        total += a
+        runs += info["runs"]
+
+        def parse(tag):
+            out = []
+            for x in j.printed(tag):
+                ln, rn, why = x.split(",", 2)
+                out.append((int(ln), int(rn), why.strip().strip('"')))
+            return out
+        drifts = parse("DRIFT")
+        for ln, rn, why in drifts[:2]:
+            ctx.drift.append("directed behaviour s%d run %d: %s (only a subscription added or removed during the call is concerned)" % (n, rn, why))
+        if len(drifts) > 2:
+            ctx.drift.append("directed behaviours s%d: %d of %d runs left the model that way" % (n, len(drifts), info["runs"]))
+        for ln, rn, why in parse("MISMATCH")[:6]:
+            steps = [e for e in rows if e["run"] == rn]
+            mode = steps[0]["mode"] if steps else "?"
+            txt = " ".join(e["e"] + ("(%s)" % e["s"] if e["s"] != "-" else "") + (str(e["final"]) if e["e"] == "end" else "") for e in steps)
+            ctx.report("directed behaviour: %s [%d subscriptions, changes by %s]" % (why, n, "the callback" if mode == "callback" else "another goroutine"),
+                       "behaviour of Publisher.tla forced on the real publisher (publishing goroutine parked at its hook points), what happened: %s: %s" % (txt, why),
+                       {"component": "c10-direct", "nsubs": n, "run": steps})
+        if n == 3:   # the binding discriminates: the same recorded steps are NOT a behaviour of the other variant of the model
+            k = ctx.tlc("Trace_PublisherDirect", "Trace_PublisherDirect_s3_inplace.cfg", workers=1, timeout=900, cwd=tla, env_extra={"VERIF_TRACE": of}, heap="4g")
+            if not drifts and not parse("MISMATCH") and not (k.printed("DRIFT") or k.printed("MISMATCH")):
+                raise core.Inconclusive("Trace_PublisherDirect accepts the recorded steps under the in-place variant too (vacuity guard)")
+    ctx.cov["evaluations"] += total
+    ctx.cov["traces_validated_against_impl"] += total
+    ctx.cov["distinct_nontrivial"] += runs
+    ctx.notes.append("direction A: %d runs = every complete behaviour of Publisher.tla (2%s subscriptions, up to 2-3 list changes anywhere between the snapshot and the return), "
+                     "each forced on the real publisher with the changes made by another goroutine and again from inside the callbacks (every third also through Map); %d recorded "
+                     "steps replayed through Publisher.tla's actions (each delivery = arrays[snap.arr][idx], list after the call = the model's slice); the in-place variant "
+                     "of the model rejects the same steps" % (runs, ", 3" if quick else ", 3, 4", total))
 
 
 def run(ctx, replay=None):
@@ -29,6 +94,7 @@ def run(ctx, replay=None):
     if not r2.inv_violated:
         raise core.Inconclusive("Publisher in-place variant: expected the [A, C, C] counterexample (vacuity guard)")
     ctx.notes.append("Publisher.tla: fresh-array removal holds; in-place removal violates %s" % r2.inv_violated)
+    directed(ctx, tla, quick)
     rc = ctx.tlc("MC_PubChurn", "MC_PubChurn_atomic.cfg", workers=4, timeout=300, cwd=tla)
     rs = ctx.tlc("MC_PubChurn", "MC_PubChurn_split.cfg", workers=4, timeout=300, cwd=tla)
     if not rc.completed or "Inv_Membership" not in (rs.inv_violated or []):
@@ -65,17 +131,18 @@ def run(ctx, replay=None):
     ctx.sample(lines[7])
     ctx.assumptions += [
         "OnNext callbacks are harness code logging themselves with one global sequence number; a subscription that is the target of an Unsubscribe overlapping the call may or may not see the value",
-        "parking the publisher is done inside a callback (between two deliveries); the window between the snapshot and the first delivery is covered by the model only",
+        "recorded runs park the publisher inside a callback (between two deliveries); the directed behaviours park it at the hook points, including between the snapshot and the first delivery",
         "SubscribeOn deliveries are awaited by posting a probe to the handler",
     ]
-    return ctx.finish(RULE, exhaustive=False, trusted=["TLC 1.8.0", "drv c10 (event log, callback gate)"])
+    return ctx.finish(RULE, exhaustive=False, trusted=["TLC 1.8.0", "drv c10 (event log, callback gate, hook-point director)"])
 
 
 MANIFEST = {
     "text": "Publisher.tla models the subscriber slice with Go slice semantics (backing arrays; Publish's snapshot shares the array); TLC checks at-most-once, "
             "exactly-once-if-stable and order for any two list changes between deliveries in the variant the code is in and exhibits the counterexample of the other. "
             "The real Publisher is driven through every assignment of re-entrant callback behaviours and through parked-publisher schedules; TLC validates each recorded "
-            "run with the statement's delivery rules (subscription set over time).",
+            "run with the statement's delivery rules (subscription set over time). Direction A: every complete behaviour of the model (2-4 subscriptions) is forced on the "
+            "real publisher at its hook points and the recorded steps are replayed through the model's own actions (Trace_PublisherDirect).",
     "note": "Trusted: TLC, the driver's event log and callback gate. Interleavings inside Publish are explored at callback grain on the code and at lock grain in the model.",
-    "technique": "TLA+ slice-level model checked by TLC (variant) + callback-gated replays and TLC trace validation of recorded runs",
+    "technique": "TLA+ slice-level model checked by TLC (variant) + every model behaviour forced on the code at hook points and replayed through the model's actions + TLC trace validation of recorded runs",
 }
